@@ -59,7 +59,7 @@ def eq_renamed(old, new, mp, guard_ok):
 
 def body_retain(n, vec_cap=1, param_cap=1, template=None, concrete=None, first_kind=None):
     def body(M):
-        check_decls(M.decls)
+        check_decls(M.decls, M)
         rb = RegBuilder(n, vec_cap=vec_cap, param_cap=param_cap, template=template)
         reg = rb.registry()
         keep = z3.Array('keep', z3.BitVecSort(32), z3.BoolSort())
